@@ -8,8 +8,8 @@
   code additionally: every embedded rule object is a silent non-scoped built-in other than
   EOI and every rule called by name has a generated function) the answer of `parse` is
   `.oof` (out of fuel: the real code exceeds its recursion budget or loops — the property's
-  "nesting stays within the budget" proviso and the termination part, see the `-- OPEN` block
-  at the end) or `.done _ _ _` (`Pairs` when matched, `PestParsingError` otherwise).  No
+  "nesting stays within the budget" proviso; section 8 proves that on a `WF.wellFormed` grammar
+  a finite budget always suffices) or `.done _ _ _` (`Pairs` when matched, `PestParsingError` otherwise).  No
   `.exc _` of any kind.
 
   Route.  L0: a `stuck` answer needs a reference to an undefined rule (`no_stuck`, by
@@ -20,6 +20,7 @@
 -/
 import PestModel.Props.C03
 import PestModel.Props.C01
+import PestModel.Lemmas.Term
 
 namespace Pest
 namespace C07
@@ -1188,28 +1189,19 @@ example : isDone1 (L1.parse badShape #[97] 30 "r" 0) true = true := by decide +k
 example : isExcG (LG.parse badShape #[97] 30 "ANY" 0) .keyError = true := by decide +kernel
 example : isDone1 (L1.parse badShape #[97] 30 "ANY" 0) true = true := by decide +kernel
 
-/-! ### Termination part
+/-! ### 8. Termination
 
--- OPEN (not attempted here; the termination stretch goal, files `WF.lean` / `Lemmas/Term.lean`)
---
---   theorem parse_terminates : wellFormed g = true → ∀ inp start k,
---       ∃ n, L0.run g inp n (.ident start none) ⟨k, [], false⟩ ≠ .oof
---
--- where `wellFormed : Grammar → Bool` (not yet defined) =
---   * no left recursion: the left-call graph — an edge from a rule to every rule that can be
---     entered before any input is consumed, *including the implicit trivia rules* called between
---     sequence elements and repetition items — is acyclic;
---   * no repetition (`rep`, and the `rep` inside the unrolled `rep1` / `repMin`) over a nullable
---     body;
---   * the trivia rules (WHITESPACE, COMMENT, the fused SKIP's loop body) are not nullable;
---   * `Closed g`.
--- What is missing: the definition of `wellFormed` (nullability analysis, left-call graph), and a
--- measure argument (input remaining, then rank in the left-call order, then expression size)
--- bounding the fuel.  With it, `parse_never_raises` sharpens to: for `n` large enough both
--- models answer `.done _ _ _` (by `run_good` / `run_gen`, `.oof` is simultaneous in L0, L1, LG).
--- What is proved instead (`parse_never_raises`, `interp_parse_never_raises`) carries `.oof` as
--- an explicit alternative: "the nesting exceeds the budget or the call does not terminate".
--/
+  `WF.wellFormed` (PestModel/WF.lean) is the decidable check "free of left recursion, of
+  references to undefined rules and of repetitions over expressions that can match empty" —
+  with pest's implicit trivia taken into account (the trivia rules are left-called wherever a
+  sequence can reach its second element without having consumed anything, and must not be
+  nullable).  `Term.parse_terminates` (Lemmas/Term.lean) proves that on such a grammar the
+  specification L0 converges for every start rule, input and start position inside the input;
+  `.oof` being simultaneous in L0, L1 and LG (`oof_together`), so do both execution modes, and
+  by the exception part they then answer `.done _ _ _`: `Pairs` or `PestParsingError`.
+  The fuel needed is finite but unbounded in the grammar/input (nesting depth): that is the
+  property's proviso "every input whose nesting stays within the interpreter's recursion
+  budget"; *within* the budget the real call returns what the model returns. -/
 
 /-- `.oof` is simultaneous in the three layers, so termination of L0 is termination of both
     execution modes (the bridge the termination theorem will be transported along) -/
@@ -1238,6 +1230,174 @@ theorem oof_together (g : Grammar) (inp : Input) (hg : GenShape g) (hsk : SkipTo
       cases m with
       | true => obtain ⟨c1, h1, _⟩ := h; simp [h1]
       | false => obtain ⟨c1, ps1, h1, _⟩ := h; simp [h1]
+
+
+open WF in
+mutual
+/-- `wfE` subsumes `refsDefined` -/
+theorem refsDefined_of_wfE (g : Grammar) (N : List String) :
+    ∀ e : Expr, wfE g N e = true → refsDefined g e = true
+  | .ident n _, h => by simp only [wfE] at h; simp only [refsDefined]; exact h
+  | .rule _ _ _ b, h => by
+    simp only [wfE] at h; simp only [refsDefined]; exact refsDefined_of_wfE g N b h
+  | .seq es, h => by
+    simp only [wfE] at h; simp only [refsDefined]; exact refsDefinedL_of_wfEL g N es h
+  | .choice es, h => by
+    simp only [wfE] at h; simp only [refsDefined]; exact refsDefinedL_of_wfEL g N es h
+  | .opt e, h => by
+    simp only [wfE] at h; simp only [refsDefined]; exact refsDefined_of_wfE g N e h
+  | .rep e, h => by
+    simp only [wfE, Bool.and_eq_true] at h; simp only [refsDefined]; exact refsDefined_of_wfE g N e h.1
+  | .rep1 e, h => by
+    simp only [wfE, Bool.and_eq_true] at h; simp only [refsDefined]; exact refsDefined_of_wfE g N e h.1
+  | .repExact e _, h => by
+    simp only [wfE] at h; simp only [refsDefined]; exact refsDefined_of_wfE g N e h
+  | .repMin e _, h => by
+    simp only [wfE, Bool.and_eq_true] at h; simp only [refsDefined]; exact refsDefined_of_wfE g N e h.1
+  | .repMax e _, h => by
+    simp only [wfE] at h; simp only [refsDefined]; exact refsDefined_of_wfE g N e h
+  | .repMinMax e _ _, h => by
+    simp only [wfE] at h; simp only [refsDefined]; exact refsDefined_of_wfE g N e h
+  | .andP e, h => by
+    simp only [wfE] at h; simp only [refsDefined]; exact refsDefined_of_wfE g N e h
+  | .notP e, h => by
+    simp only [wfE] at h; simp only [refsDefined]; exact refsDefined_of_wfE g N e h
+  | .group e _, h => by
+    simp only [wfE] at h; simp only [refsDefined]; exact refsDefined_of_wfE g N e h
+  | .push e, h => by
+    simp only [wfE] at h; simp only [refsDefined]; exact refsDefined_of_wfE g N e h
+  | .str _, _ | .ci _, _ | .range _ _, _ | .pushLit _, _ | .peek, _ | .pop, _ | .drop, _
+  | .peekAll, _ | .popAll, _ | .peekSlice _ _, _ | .anyB, _ | .soiB, _ | .eoiB, _ | .uprop _, _
+  | .skipUntil _, _ | .optChoice _ _, _ => by simp only [refsDefined]
+theorem refsDefinedL_of_wfEL (g : Grammar) (N : List String) :
+    ∀ es : List Expr, wfEL g N es = true → refsDefinedL g es = true
+  | [], _ => by simp only [refsDefinedL]
+  | e :: es, h => by
+    simp only [wfEL, Bool.and_eq_true] at h
+    simp only [refsDefinedL, Bool.and_eq_true]
+    exact ⟨refsDefined_of_wfE g N e h.1, refsDefinedL_of_wfEL g N es h.2⟩
+end
+
+/-- a well-formed grammar has no reference to an undefined rule -/
+theorem closed_of_wellFormed {g : Grammar} (h : WF.wellFormed g = true) : Closed g := by
+  intro r hr
+  exact refsDefined_of_wfE g _ r.body ((Term.wfg_of_wellFormed g h).wf r hr)
+
+section Termination
+variable (g : Grammar) (inp : Input)
+
+/-- **Termination of the specification.**  (The statement asked for, with the property's own
+    range `0 ≤ start_pos ≤ len(text)` as hypothesis: started beyond the end, `SkipUntil` moves
+    the position *back* to `len(text)`, which the progress argument does not cover.) -/
+theorem parse_terminates (h : WF.wellFormed g = true) (start : String) (k : Nat) (hk : k ≤ inp.size) :
+    ∃ n, L0.run g inp n (.ident start none) ⟨k, [], false⟩ ≠ .oof :=
+  Term.parse_terminates g inp h start k hk
+
+/-- every expression of a well-formed grammar terminates from every state inside the input -/
+theorem run_terminates (h : WF.wellFormed g = true) (e : Expr)
+    (he : WF.wfE g (WF.nullSet g) e = true) (s : S0) (hs : s.pos ≤ inp.size) :
+    ∃ n, L0.run g inp n e s ≠ .oof :=
+  Term.run_terminates g inp h e he s hs
+
+/-- **The interpreter terminates and returns `Pairs` or raises `PestParsingError`**: with
+    enough fuel (recursion budget) — and then with any larger amount — `Parser.parse` answers
+    `.done`, for every defined start rule, input and start position inside the input. -/
+theorem interp_terminates (h : WF.wellFormed g = true) (hsk : SkipTotal g) (start : String)
+    (hst : (g.lookup start).isSome = true) (k : Nat) (hk : k ≤ inp.size) :
+    ∃ n, ∀ fuel, n ≤ fuel → ∃ m c ps, L1.parse g inp fuel start k = .done m c ps := by
+  obtain ⟨n, x, hx, hstab⟩ := Term.parse_terminates_stable g inp h start k hk
+  refine ⟨n, fun fuel hf => ?_⟩
+  have h0 := hstab fuel hf
+  have hne := interp_no_exc g inp (closed_of_wellFormed h) hsk start hst fuel k
+  have hag := C03.parse_agrees_with_spec g inp hsk fuel start k
+  revert hne hag
+  cases L1.parse g inp fuel start k with
+  | oof => intro _ hag; rw [h0] at hag; exact absurd hag hx
+  | exc e => intro hne _; exact absurd rfl (hne e)
+  | done m c ps => intro _ _; exact ⟨m, c, ps, rfl⟩
+
+/-- **C07, both execution modes**: on a well-formed grammar whose trees have the shapes the
+    generator handles, for every start rule with a generated function, every input and every
+    start position inside it, there is a recursion budget from which on both `Parser.parse`
+    and the generated `parse()` return `Pairs` (`.done true`) or raise `PestParsingError`
+    (`.done false`) — nothing else — and they agree (same verdict, same pairs, same
+    furthest-failure position: `modes_agree`). -/
+theorem parse_total (h : WF.wellFormed g = true) (hg : GenShape g) (hsk : SkipTotal g)
+    (start : String) (hst : callable g start = true) (k : Nat) (hk : k ≤ inp.size) :
+    ∃ n, ∀ fuel, n ≤ fuel →
+      (∃ m c ps, L1.parse g inp fuel start k = .done m c ps) ∧
+      (∃ m c ps, LG.parse g inp fuel start k = .done m c ps) := by
+  obtain ⟨n, x, hx, hstab⟩ := Term.parse_terminates_stable g inp h start k hk
+  refine ⟨n, fun fuel hf => ?_⟩
+  have h0 : L0.parse g inp fuel start k ≠ .oof := by rw [hstab fuel hf]; exact hx
+  have ho := oof_together g inp hg hsk start hst fuel k
+  have hnr := parse_never_raises g inp hg hsk start hst fuel k
+  constructor
+  · rcases hnr.1 with h1 | h1
+    · exact absurd (ho.1.2 h1) h0
+    · exact h1
+  · rcases hnr.2 with h1 | h1
+    · exact absurd (ho.1.2 (ho.2.2 h1)) h0
+    · exact h1
+
+end Termination
+
+/-! #### the check on concrete grammars -/
+
+/-- recursion through `value → array → value`, an optional, nested repetitions, an atomic rule,
+    SOI/EOI, implicit whitespace -/
+def jsonish : Grammar :=
+  { rules := [⟨"file", 0, .seq [.rule "SOI" 2 true .soiB, .ident "value" none, .ident "EOI" none], .grammar⟩,
+              ⟨"value", 0, .choice [.ident "array" none, .ident "number" none], .grammar⟩,
+              ⟨"array", 0, .seq [.str [91], .opt (.seq [.ident "value" none,
+                  .rep (.seq [.str [44], .ident "value" none])]), .str [93]], .grammar⟩,
+              ⟨"number", ATOMIC, .rep1 (.rule "ASCII_DIGIT" 2 true (.range 48 57)), .grammar⟩,
+              ⟨"EOI", 0, .eoiB, .builtin⟩,
+              ⟨"WHITESPACE", SILENT, .str [32], .grammar⟩] }
+
+example : WF.wellFormed jsonish = true := by decide
+example : GenShape jsonish := genShape_of_genShapeB (by decide)
+example : SkipTotal jsonish := skipTotal_of_skipTotalB (by decide)
+example : callable jsonish "file" = true := by decide
+example : WF.rankTable jsonish = [("file", 2), ("value", 1), ("array", 0), ("number", 0), ("EOI", 0),
+    ("WHITESPACE", 0)] := by decide
+example : WF.wellFormed demoG = true := by decide
+example : WF.wellFormed demoS = true := by decide
+-- "[1, [2,3] ]": parsed by both modes with fuel 40
+example : isDone1 (L1.parse jsonish #[91, 49, 44, 32, 91, 50, 44, 51, 93, 32, 93] 40 "file" 0) true = true := by
+  decide +kernel
+example : isDoneG (LG.parse jsonish #[91, 49, 44, 32, 91, 50, 44, 51, 93, 32, 93] 40 "file" 0) true = true := by
+  decide +kernel
+
+/-- left recursion (direct, and through a nullable prefix), a repetition over a nullable body, a
+    nullable trivia rule, left recursion through implicit trivia, an undefined reference: rejected -/
+def lrDirect : Grammar :=
+  { rules := [⟨"e", 0, .choice [.seq [.ident "e" none, .str [43], .str [49]], .str [49]], .grammar⟩] }
+def lrNullablePrefix : Grammar :=
+  { rules := [⟨"e", 0, .seq [.opt (.str [45]), .ident "e" none], .grammar⟩] }
+def repNullable : Grammar :=
+  { rules := [⟨"e", 0, .rep (.opt (.str [97])), .grammar⟩] }
+def nullableWs : Grammar :=
+  { rules := [⟨"e", 0, .seq [.str [97], .str [98]], .grammar⟩, ⟨"WHITESPACE", SILENT, .rep (.str [32]), .grammar⟩] }
+def lrThroughTrivia : Grammar :=
+  { rules := [⟨"e", 0, .seq [.opt (.str [97]), .str [98]], .grammar⟩,
+              ⟨"WHITESPACE", SILENT, .choice [.str [32], .seq [.ident "e" none, .str [33]]], .grammar⟩] }
+
+example : WF.wellFormed lrDirect = false := by decide
+example : WF.wellFormed lrNullablePrefix = false := by decide
+example : WF.wellFormed repNullable = false := by decide
+example : WF.wellFormed nullableWs = false := by decide
+example : WF.wellFormed lrThroughTrivia = false := by decide
+example : WF.wellFormed badRef = false := by decide
+
+/-- … and rightly so: the models run out of any fuel on them -/
+def isOof1 : R1 → Bool
+  | .oof => true
+  | _ => false
+example : isOof1 (L1.parse lrDirect #[49] 50 "e" 0) = true := by decide +kernel
+example : isOof1 (L1.parse repNullable #[98] 50 "e" 0) = true := by decide +kernel
+example : isOof1 (L1.parse nullableWs #[97, 98] 50 "e" 0) = true := by decide +kernel
+example : isOof1 (L1.parse lrThroughTrivia #[99, 98] 50 "e" 0) = true := by decide +kernel
 
 end C07
 end Pest
